@@ -137,10 +137,343 @@ def _norm_hdr(f: Dict[str, Any]) -> Dict[str, Any]:
 
 
 # ---------------------------------------------------------------------------------------------
+# objects that reached the case's values THE LONG WAY (case key "hist" of uslp_hdr_pack / uslp_thdr_pack / uslp_tfdf_new /
+# uslp_tfdf_pack / uslp_frame_pack; not read by the model ops). The statement is about the VALUES a header / data field / frame
+# holds: "for every spacecraft ID ... VCF count of every length 0..7, the primary header packs to exactly the 7+n octets".
+# An object is obtained with OTHER values (hist.from; by the constructor or by the decoder, hist.source), some or all of its
+# views are read (hist.read: len(), pack(), fields, decode(pack())), then it is given the case's values through its public
+# attributes ONE BY ONE IN THE ORDER hist.path (what is not named there follows in a fixed order; a "set_len" step of a frame
+# history is a call of set_frame_len_in_header() in between), every view is read again (hist.after) and must show what an
+# object built directly with the case's values shows (core.read_mutate_read); the op then goes on with THAT object, so its
+# result is also compared with the model's answer for the case's values.
+#   * Between two assignments an object may hold a combination outside the domain (a VCF count that does not fit the VCF
+#     count length still in force, a pointer without a fixed-length rule). An implementation whose setter REFUSES such a
+#     combination (ValueError family) cannot tell this history: the case falls back to the plain object (no alarm). What no
+#     implementation may do is take the assignment and silently keep another value.
+#   * A class that does not take attribute assignment at all (frozen / read-only: AttributeError / TypeError) has no history.
+# ---------------------------------------------------------------------------------------------
+class _NoHistory(Exception):
+    """the implementation (legitimately) does not take a step of the history: the case is the plain one"""
+
+
+def _hist_assign(obj, attr: str, value, in_domain: bool) -> None:
+    try:
+        setattr(obj, attr, value)
+    except (AttributeError, TypeError) as e:
+        raise _NoHistory(f"{type(obj).__name__}.{attr} is not assignable: {e}")
+    except ValueError:
+        if in_domain:
+            raise       # a setter that refuses a combination of the domain is a finding of the case (valid input refused)
+        raise _NoHistory(f"{type(obj).__name__}.{attr}: the setter refuses a combination outside the domain")
+
+
+PHDR_KEYS = ["scid", "src_dest", "vcid", "map_id", "frame_len", "bypass", "prot", "ocf", "vcf_len", "vcf_count"]
+THDR_KEYS = ["scid", "src_dest", "vcid", "map_id"]
+_HDR_ATTR = {"scid": "scid", "src_dest": "src_dest", "vcid": "vcid", "map_id": "map_id", "frame_len": "frame_len",
+             "bypass": "bypass_seq_ctrl_flag", "prot": "prot_ctrl_cmd_flag", "ocf": "op_ctrl_flag", "vcf_len": "vcf_count_len",
+             "vcf_count": "vcf_count"}
+_HDR_CONV = {"src_dest": lambda v: _m(SourceOrDestField, v), "bypass": lambda v: _m(BypassSequenceControlFlag, v),
+             "prot": lambda v: _m(ProtocolCommandFlag, v), "ocf": bool}
+
+
+def _hdr_in_domain(h) -> bool:
+    """identifiers in range; (regular header) frame length in 16 bits, VCF count length 0..7 and a count that fits it"""
+    try:
+        if not (0 <= h["scid"] <= 0xFFFF and 0 <= h["vcid"] <= 63 and 0 <= h["map_id"] <= 15 and h["src_dest"] in (0, 1)):
+            return False
+        if h["kind"] == "truncated":
+            return True
+        n, c = h["vcf_len"], h["vcf_count"]
+        return (0 <= h["frame_len"] <= 0xFFFF and h["bypass"] in (0, 1) and h["prot"] in (0, 1) and h["ocf"] in (0, 1)
+                and 0 <= n <= 7 and (n == 0 and (c is None or c >= 0) or n > 0 and c is not None and 0 <= c < 256 ** n))
+    except (KeyError, TypeError):
+        return False
+
+
+def _hist_hdr_views():
+    def decoded(h):
+        return _norm_hdr(_header_fields(type(h).unpack(bytes(h.pack()) + b"\x5a")))
+    return [("len", lambda h: int(h.len())), ("pack", lambda h: hx(h.pack())), ("fields", lambda h: _norm_hdr(_header_fields(h))),
+            ("decoded", decoded)]
+
+
+def _hdr_mutate(h, old, new, hist, keys) -> None:
+    cur = {k: old[k] for k in keys}
+    cur["kind"] = old["kind"]
+    path = [k for k in (hist.get("path") or []) if k in keys]
+    mid = hist.get("mid")
+    for k in path + [k for k in keys if k not in path]:
+        if k not in path and cur[k] == new[k]:
+            continue
+        cur[k] = new[k]
+        _hist_assign(h, _HDR_ATTR[k], _HDR_CONV.get(k, lambda v: v)(new[k]), _hdr_in_domain(cur))
+        if mid:
+            # the application looks at the header between two assignments (whatever it sees there is not compared)
+            core.read_views(h, _hist_hdr_views(), mid)
+
+
+def _hdr_after_history(a, kind: str):
+    hist = a["hist"]
+    a = dict(a, kind=kind)
+    old = dict(hist["from"], kind=kind)
+    if not (_hdr_in_domain(a) and _hdr_in_domain(old)):
+        return _header(a)     # (a minimiser that left the domain: the plain case)
+    cls = TruncatedPrimaryHeader if kind == "truncated" else PrimaryHeader
+    keys = THDR_KEYS if kind == "truncated" else PHDR_KEYS
+    src = hist.get("source", "ctor")
+
+    def make():
+        return cls.unpack(enc_hdr(old) + b"\x99") if src == "unpack" else _header(old)
+    got: Dict[str, Any] = {}
+    try:
+        err = core.read_mutate_read(make, _hist_hdr_views(), lambda h: _hdr_mutate(h, old, a, hist, keys), lambda: _header(a),
+                                    f"{cls.__name__} ({'decoded' if src == 'unpack' else 'constructed'} with "
+                                    f"{ {k: old[k] for k in keys} }, then its attributes assigned in the order {hist.get('path')} "
+                                    f"to reach { {k: a[k] for k in keys} })", first=hist.get("read"), after=hist.get("after"), out=got)
+    except _NoHistory:
+        return _header(a)
+    if src == "unpack":
+        _decoded_like_constructed(got, _hist_hdr_views(), lambda: _header(old), hist.get("read"), f"{cls.__name__}.unpack({hx(enc_hdr(old))}..)")
+    if err:
+        raise SelfCheckFailure(err)
+    return got["obj"]
+
+
+def _decoded_like_constructed(got, views, ctor, first, what: str) -> None:
+    """history with source "unpack": what the views showed IMMEDIATELY after decode (before any setter) is what an object
+    CONSTRUCTED with the same values shows"""
+    want = core.read_views(ctor(), views, first)
+    for n, v in got["before"].items():
+        if v != want.get(n):
+            raise SelfCheckFailure(f"{what}: read immediately after decode (nothing was called on the object before), `{n}` shows "
+                                   f"{core._short(v)} - an object constructed with the decoded values shows {core._short(want.get(n))}")
+
+
+TFDF_KEYS = ["rules", "upid", "fhp", "tfdz"]
+_TFDF_ATTR = {"rules": "tfdz_contr_rules", "upid": "uslp_ident", "fhp": "fhp_or_lvop", "tfdz": "tfdz"}
+_TFDF_CONV = {"rules": lambda v: _rules(v), "upid": lambda v: _upid(v), "tfdz": lambda v: unhx(v)}
+
+
+def _tfdf_consistent(t) -> bool:
+    """the pointer is present exactly with the fixed-length rules (the data fields frames are made of)"""
+    return 0 <= t["rules"] <= 7 and 0 <= t["upid"] <= 31 and (t["fhp"] is not None) == (t["rules"] in FP_RULES) and \
+        (t["fhp"] is None or 0 <= t["fhp"] <= 0xFFFF)
+
+
+def _hist_tfdf_views():
+    def packs(t):
+        out = []
+        for tr in (False, True):
+            for ft in (None, FrameType.FIXED, FrameType.VARIABLE):
+                try:
+                    out.append(hx(t.pack(truncated=tr, frame_type=ft)))
+                except ValueError as e:     # (pointer required but missing: a Uslp* error of the ValueError family)
+                    out.append("refused" if core.exc_categories(e) else "other")
+        return out
+    return [("len", lambda t: [int(t.len()), int(t.header_len())]), ("pack", packs), ("fields", _tfdf_fields),
+            ("should_fhp", lambda t: [bool(t.should_have_fhp_or_lvp_field(truncated=tr, frame_type=ft))
+                                      for tr in (False, True) for ft in (None, FrameType.FIXED, FrameType.VARIABLE)])]
+
+
+def _tfdf_mutate(t, old, new, hist) -> None:
+    cur = {k: old[k] for k in TFDF_KEYS}
+    path = [k for k in (hist.get("path") or []) if k in TFDF_KEYS]
+    mid = hist.get("mid")
+    for k in path + [k for k in TFDF_KEYS if k not in path]:
+        if k not in path and cur[k] == new[k]:
+            continue
+        cur[k] = new[k]
+        _hist_assign(t, _TFDF_ATTR[k], _TFDF_CONV.get(k, lambda v: v)(new[k]), _tfdf_consistent(cur))
+        if mid:
+            core.read_views(t, _hist_tfdf_views(), mid)
+
+
+def _tfdf_hist_supported(old, new, path) -> bool:
+    """POINTER-PRESENCE histories (see the finding in C17.history_cases): a history in which the pointer appears / disappears
+    is told only when the data zone is assigned AFTER the pointer - the documented setter `tfdz` is what recomputes the size"""
+    if (old["fhp"] is None) == (new["fhp"] is None):
+        return True
+    order = [k for k in path if k in TFDF_KEYS] + [k for k in TFDF_KEYS if k not in path and old[k] != new[k]]
+    return "tfdz" in order and "fhp" in order and order.index("fhp") < order.index("tfdz")
+
+
+def _tfdf_after_history(a):
+    hist = a["hist"]
+    old = hist["from"]
+    new = {k: a[k] for k in TFDF_KEYS}
+    src = hist.get("source", "ctor")
+    try:
+        usable = (all(k in old for k in TFDF_KEYS) and 0 <= new["rules"] <= 7 and 0 <= new["upid"] <= 31
+                  and (new["fhp"] is None or 0 <= new["fhp"] <= 0xFFFF) and len(unhx(new["tfdz"])) < 60000
+                  and (src != "unpack" or _tfdf_consistent(old)) and _tfdf_hist_supported(old, new, hist.get("path") or []))
+    except (TypeError, ValueError):
+        usable = False
+    if not usable:
+        return _tfdf(a)
+
+    def make():
+        if src == "unpack":
+            raw = enc_tfdf(old)
+            return TransferFrameDataField.unpack(raw_tfdf=raw + b"\x99\x98", truncated=False, exact_len=len(raw), frame_type=None)
+        return _tfdf(old)
+    got: Dict[str, Any] = {}
+    try:
+        err = core.read_mutate_read(make, _hist_tfdf_views(), lambda t: _tfdf_mutate(t, old, new, hist), lambda: _tfdf(new),
+                                    f"TransferFrameDataField ({'decoded' if src == 'unpack' else 'constructed'} with {old}, then "
+                                    f"its attributes assigned in the order {hist.get('path')} to reach {new})",
+                                    first=hist.get("read"), after=hist.get("after"), out=got)
+    except _NoHistory:
+        return _tfdf(a)
+    if src == "unpack":
+        _decoded_like_constructed(got, _hist_tfdf_views(), lambda: _tfdf(old), hist.get("read"),
+                                  f"TransferFrameDataField.unpack({hx(enc_tfdf(old))}9998, truncated=False, exact_len={len(enc_tfdf(old))}, frame_type=None)")
+    if err:
+        raise SelfCheckFailure(err)
+    return got["obj"]
+
+
+# frame histories: steps of hist.path
+#   "tfdz" / "fhp" / "upid" / "rules"  attribute of frame.tfdf        "tfdf"  frame.tfdf replaced by a new data field object
+#   "iz" / "fecf"                       frame.insert_zone / frame.fecf "ocf"   frame.op_ctrl_field and header.op_ctrl_flag
+#   "vcf"    header.vcf_count_len, header.vcf_count                    "hdr"   frame.header replaced by a new header object
+#   "set_len"  frame.set_frame_len_in_header() at this point of the history (what it wrote is overwritten at the end)
+# whatever still differs afterwards is assigned in the order of FRAME_STEPS; the header's frame length field is assigned last
+FRAME_STEPS = ["hdr", "vcf", "ocf", "iz", "fecf", "rules", "upid", "fhp", "tfdz"]
+
+
+def _hist_frame_views(truncated: bool):
+    return [("len", lambda f: [int(f.len()), int(f.tfdf.len()), int(f.header.len())]),
+            ("pack", lambda f: hx(f.pack(truncated=truncated, frame_type=None))), ("fields", _frame_fields_norm)]
+
+
+def _frame_fields_norm(f):
+    v = _frame_fields(f)
+    v["hdr"] = _norm_hdr(v["hdr"])
+    return v
+
+
+def _frame_mutate(f, old, new, hist) -> None:
+    done = set()
+    primary = new["hdr"]["kind"] == "primary"
+
+    def differs(step) -> bool:
+        if step == "hdr":
+            return any(old["hdr"].get(k) != new["hdr"].get(k) for k in PHDR_KEYS if k not in ("frame_len", "ocf", "vcf_len", "vcf_count"))
+        if step == "vcf":
+            return primary and (old["hdr"]["vcf_len"], old["hdr"]["vcf_count"]) != (new["hdr"]["vcf_len"], new["hdr"]["vcf_count"])
+        if step == "ocf":
+            return old["ocf"] != new["ocf"]
+        if step in ("iz", "fecf"):
+            return old[step] != new[step]
+        return old["tfdf"][step] != new["tfdf"][step]
+
+    def do(step):
+        if step == "set_len":
+            try:
+                f.set_frame_len_in_header()
+            except ValueError:
+                pass
+            return
+        if step == "tfdf":
+            f.tfdf = _tfdf(new["tfdf"])
+            done.update(("rules", "upid", "fhp", "tfdz"))
+        elif step == "hdr":
+            f.header = _header(new["hdr"])
+            done.update(("hdr", "vcf"))
+            if primary:
+                # (the OCF flag belongs to the "ocf" step: the new header shows what the frame holds at this point)
+                f.header.op_ctrl_flag = bool(f.op_ctrl_field)
+        elif step == "vcf":
+            if primary:
+                _hist_assign(f.header, "vcf_count_len", new["hdr"]["vcf_len"], False)
+                _hist_assign(f.header, "vcf_count", new["hdr"]["vcf_count"], False)
+        elif step == "ocf":
+            _hist_assign(f, "op_ctrl_field", _opt(new["ocf"]), False)
+            if primary:
+                _hist_assign(f.header, "op_ctrl_flag", bool(new["hdr"]["ocf"]), False)
+        elif step in ("iz", "fecf"):
+            _hist_assign(f, "insert_zone" if step == "iz" else "fecf", _opt(new[step]), False)
+        else:
+            _hist_assign(f.tfdf, _TFDF_ATTR[step], _TFDF_CONV.get(step, lambda v: v)(new["tfdf"][step]), False)
+        done.add(step)
+
+    for step in hist.get("path") or []:
+        if step in FRAME_STEPS or step in ("set_len", "tfdf"):
+            do(step)
+    for step in FRAME_STEPS:
+        if step not in done and differs(step):
+            do(step)
+    if primary:
+        _hist_assign(f.header, "frame_len", new["hdr"]["frame_len"], False)
+
+
+def _frame_hist_usable(old, new, hist) -> bool:
+    try:
+        if old["hdr"]["kind"] != new["hdr"]["kind"] or not (_hdr_in_domain(old["hdr"]) and _hdr_in_domain(new["hdr"])):
+            return False
+        if not (_tfdf_consistent(old["tfdf"]) and _tfdf_consistent(new["tfdf"])):
+            return False
+        # the pointer neither appears nor disappears (fixed-length rules on both sides or on neither): see _tfdf_hist_supported
+        if (old["tfdf"]["fhp"] is None) != (new["tfdf"]["fhp"] is None):
+            return False
+        for x in (old, new):
+            trunc = x["hdr"]["kind"] == "truncated"
+            has_ocf = bool(x["ocf"])
+            if (has_ocf and len(unhx(x["ocf"])) != 4) or (not trunc and bool(x["hdr"]["ocf"]) != has_ocf) or (trunc and has_ocf):
+                return False
+            if trunc and x["tfdf"]["rules"] in FP_RULES:
+                return False
+        return frame_total_len(new) <= 60000 and frame_total_len(old) <= 60000
+    except (KeyError, TypeError, ValueError):
+        return False
+
+
+def _frame_after_history(a):
+    hist = a["hist"]
+    old = hist["from"]
+    if not _frame_hist_usable(old, a, hist):
+        return _frame(a)
+    src = hist.get("source", "ctor")
+    truncated = a["hdr"]["kind"] == "truncated"
+    if src == "unpack":
+        old = copy.deepcopy(old)
+        if not truncated:
+            old["hdr"]["frame_len"] = frame_total_len(old) - 1      # (the octets a sender emits: the field is set)
+        raw_old = enc_frame(old)
+
+    def make():
+        if src != "unpack":
+            return _frame(old)
+        ft = 0 if old["tfdf"]["rules"] in FP_RULES else 1
+        p = {"kind": ft, "len": len(raw_old), "iz": None if old["iz"] is None else len(unhx(old["iz"])),
+             "fecf": None if old["fecf"] is None else len(unhx(old["fecf"]))}
+        return TransferFrame.unpack(raw_frame=raw_old + unhx(hist.get("sfx", "")), frame_type=FrameType(ft),
+                                    frame_properties=_props_new(p))
+    got: Dict[str, Any] = {}
+    try:
+        err = core.read_mutate_read(make, _hist_frame_views(truncated), lambda f: _frame_mutate(f, old, a, hist), lambda: _frame(a),
+                                    f"TransferFrame ({'decoded' if src == 'unpack' else 'constructed'} with {_short_frame(old)}, then "
+                                    f"changed through its public attributes / set_frame_len_in_header() in the order {hist.get('path')} "
+                                    f"to reach {_short_frame(a)})", first=hist.get("read"), after=hist.get("after"), out=got)
+    except _NoHistory:
+        return _frame(a)
+    if src == "unpack":
+        _decoded_like_constructed(got, _hist_frame_views(truncated), lambda: _frame(old), hist.get("read"),
+                                  f"TransferFrame.unpack({hx(raw_old)}{hist.get('sfx', '')}, matching managed parameters)")
+    if err:
+        raise SelfCheckFailure(err)
+    return got["obj"]
+
+
+def _short_frame(f) -> str:
+    return str({k: f[k] for k in ("hdr", "tfdf", "iz", "ocf", "fecf")})[:400]
+
+
+# ---------------------------------------------------------------------------------------------
 # implementation ops
 # ---------------------------------------------------------------------------------------------
 def op_hdr_pack(a):
-    h = _phdr(a)
+    h = _hdr_after_history(a, "primary") if a.get("hist") else _phdr(a)
     # (packs twice, the caller modifying the first returned buffer in between)
     raw = core.pack_stable(h, "PrimaryHeader.pack()")
     if a.get("check"):
@@ -175,7 +508,7 @@ def op_hdr_unpack(a):
 
 
 def op_thdr_pack(a):
-    h = _thdr(a)
+    h = _hdr_after_history(a, "truncated") if a.get("hist") else _thdr(a)
     raw = core.pack_stable(h, "TruncatedPrimaryHeader.pack()")
     if a.get("check"):
         if len(raw) != h.len():
@@ -204,11 +537,11 @@ def op_hdr_type(a):
 
 
 def op_tfdf_new(a):
-    return _tfdf_fields(_tfdf(a))
+    return _tfdf_fields(_tfdf_after_history(a) if a.get("hist") else _tfdf(a))
 
 
 def op_tfdf_pack(a):
-    t = _tfdf(a)
+    t = _tfdf_after_history(a) if a.get("hist") else _tfdf(a)
     ft = _ft(a["frame_type"])
     raw = core.pack_stable(t, "TransferFrameDataField.pack()", packer=lambda: t.pack(truncated=bool(a["truncated"]), frame_type=ft))
     if a.get("check") and len(raw) != t.len():
@@ -224,6 +557,18 @@ def op_tfdf_unpack(a):
         return TransferFrameDataField.unpack(raw_tfdf=b, truncated=bool(a["truncated"]), exact_len=a["exact_len"],
                                              frame_type=_ft(a["frame_type"]))
     t = decode(raw)
+    if a.get("check"):
+        # the length views, read IMMEDIATELY after decode (nothing else was called on the object): the data field as decoded has
+        # header_len() + len(tfdz) octets, reports them, and packs (same arguments as the decode) to the octets it was made of
+        n_len, n_hdr = int(t.len()), int(t.header_len())
+        if n_len != n_hdr + len(t.tfdz):
+            raise SelfCheckFailure(f"TransferFrameDataField.unpack: len() read immediately after decode is {n_len}; the decoded data field "
+                                   f"has a {n_hdr} octet header and a {len(t.tfdz)} octet data zone")
+        again = core.pack_stable(t, "TransferFrameDataField.pack() of a decoded data field",
+                                 packer=lambda: t.pack(truncated=bool(a["truncated"]), frame_type=_ft(a["frame_type"])))
+        if len(again) != n_len or again != raw[:n_len] or (a["exact_len"] >= 1 and n_len != min(a["exact_len"], len(raw))):
+            raise SelfCheckFailure(f"TransferFrameDataField.unpack: len() read immediately after decode is {n_len}, pack() gives "
+                                   f"{len(again)} octets ({again.hex()[:60]}) for the data field {raw[:a['exact_len']].hex()[:60]}")
     f = core.ISOLATION.check("TransferFrameDataField", t, _tfdf_fields)
     # decoded out of a receive buffer that is reused afterwards: the data zone is still the one that was decoded
     core.check_detached(decode, raw, _tfdf_fields, "TransferFrameDataField.unpack", expect=f,
@@ -253,7 +598,7 @@ def op_props_new(a):
 
 
 def op_frame_pack(a):
-    f = _frame(a)
+    f = _frame_after_history(a) if a.get("hist") else _frame(a)
     if a["set_len"]:
         before = int(f.header.frame_len) if a["hdr"]["kind"] == "primary" else None
         try:
@@ -296,6 +641,9 @@ def op_frame_unpack(a):
     props = _props_new(a["props"]) if a.get("before") else _props(a["props"])
     for b in a.get("before", ()):
         TransferFrame.unpack(raw_frame=unhx(b), frame_type=ft, frame_properties=props)
+    if a.get("check"):
+        _decoded_frame_lengths(lambda: TransferFrame.unpack(raw_frame=raw, frame_type=ft, frame_properties=_props_new(a["props"])),
+                               raw, a["props"], ft)
     f = TransferFrame.unpack(raw_frame=raw, frame_type=ft, frame_properties=props)
     # frames decoded by earlier calls must still show what they showed then
     fields = core.ISOLATION.check("TransferFrame", f, _frame_fields)
@@ -312,6 +660,41 @@ def op_frame_unpack(a):
                         raw, view, "TransferFrame.unpack", expect=view(f),
                         memview=core.accepts_memoryview(TransferFrame.unpack, "raw_frame"))
     return fields
+
+
+def _decoded_frame_lengths(decode, raw: bytes, p, ft) -> None:
+    """`raw` starts with a well-formed frame (followed by anything); `decode()` decodes it with the matching managed parameters
+    `p` (a fresh managed-parameter object per call). The length views of the decoded frame, read IMMEDIATELY after decode -
+    before anything else is called on the object, and on a separate object for every view order:
+      (i)  len() is the number of octets of the frame, tfdf.len() the number of octets of its data field
+           (= tfdf.header_len() + len(tfdf.tfdz)), pack() gives the frame's octets;
+      (ii) set_frame_len_in_header() as the FIRST call on a decoded frame leaves the length field at (octets - 1), and the frame
+           still packs to the same octets."""
+    trunc = bool(raw[3] & 1)
+    total = p["len"] if trunc else ((raw[4] << 8) | raw[5]) + 1
+    hl = 4 if trunc else 7 + (raw[6] & 7)
+    rest = (p["iz"] or 0) + (p["fecf"] or 0) + (4 if (not trunc and raw[6] & 8) else 0)
+    what = f"TransferFrame.unpack({raw.hex()[:160]}, matching managed parameters)"
+    f = decode()
+    n_frame = int(f.len())
+    n_tfdf, n_th, n_tz = int(f.tfdf.len()), int(f.tfdf.header_len()), len(f.tfdf.tfdz)
+    if n_frame != total:
+        raise SelfCheckFailure(f"{what}: len() read immediately after decode is {n_frame}, the frame has {total} octets")
+    if n_tfdf != total - hl - rest or n_th + n_tz != n_tfdf:
+        raise SelfCheckFailure(f"{what}: tfdf.len() read immediately after decode is {n_tfdf} (header_len() {n_th}, data zone {n_tz} "
+                               f"octets); the data field of the frame has {total - hl - rest} octets")
+    again = bytes(f.pack(truncated=trunc, frame_type=ft))
+    if again != raw[:total]:
+        raise SelfCheckFailure(f"{what}: the decoded frame packs to {again.hex()[:160]}")
+    g = decode()
+    g.set_frame_len_in_header()
+    if not trunc and int(g.header.frame_len) != total - 1:
+        raise SelfCheckFailure(f"{what}: set_frame_len_in_header() as the first call on the decoded frame writes the length field "
+                               f"{int(g.header.frame_len)}; the frame has {total} octets, the format requires {total - 1}")
+    again = bytes(g.pack(truncated=trunc, frame_type=ft))
+    if again != raw[:total] or int(g.len()) != total:
+        raise SelfCheckFailure(f"{what}: after set_frame_len_in_header() as the first call on the decoded frame it packs to "
+                               f"{again.hex()[:160]} and reports len() {int(g.len())}")
 
 
 # the exhaustive header sweeps decode ~250 000 headers: they look back one object only (run time)
@@ -498,7 +881,9 @@ class C17(Prop):
     exhaustive_note = ("all 65536 values of header octets 0-1 and of octets 2-3 and all 256 values of octet 6 (with every "
                        "tail length 0..8) through both header decoders; all 256 data-field header octets x truncated x "
                        "frame type through the data-field decoder; all 8 rules x 32 protocol ids x flags through the "
-                       "data-field encoder; every truncation of sampled frames")
+                       "data-field encoder; every truncation of sampled frames; histories (key hist): every (old, new) VCF count "
+                       "length 0..7 with count and length assigned in both orders, every ordered pair of the ten primary-header "
+                       "attributes, every order of the four attributes of the truncated header and of the data field")
     trusted_base = [
         "arithmetic normal form of the model vs shifts/masks of the code: tied by the exhaustive octet/word sweeps",
         "individual Uslp* exception classes are compared through the *_cls ops (class name as a value); the plain ops "
@@ -509,6 +894,9 @@ class C17(Prop):
         "VCF count, VCF length and pointer arguments are non-negative integers",
         "a VCF count of length 0 carries no value: the decoder reports 0 whatever the encoder was given",
         "TransferFrame.pack is called with truncated = header.truncated() (as the test-suite does)",
+        "histories of a data field in which the pointer (fhp_or_lvop) appears or disappears are told only with the data zone "
+        "assigned after the pointer: len() is a size the `tfdz` setter remembers (see C17.history_cases for the call sequence "
+        "on the unchanged tree)",
     ]
 
     def impl_ops(self):
@@ -555,6 +943,8 @@ class C17(Prop):
         yield from self.header_cases(rng, thorough)
         yield from self.tfdf_cases(rng, thorough)
         yield from self.frame_cases(rng, thorough)
+        # objects that reached their values through attribute assignments in every order (case key "hist")
+        yield from self.history_cases(rng, thorough)
 
     # -----------------------------------------------------------------------------------------
     def header_cases(self, rng, thorough):
@@ -742,7 +1132,7 @@ class C17(Prop):
                             if bad_rules or short:
                                 yield Case({"op": "uslp_tfdf_unpack", **a}, "invalid", tag="octet0-sweep")
                             else:
-                                yield Case({"op": "uslp_tfdf_unpack", **a}, "valid", tag="octet0-sweep")
+                                yield Case({"op": "uslp_tfdf_unpack", **a, "check": True}, "valid", tag="octet0-sweep")
         for ft in (None, 0, 1):
             for tr in (0, 1):
                 a = {"raw": "", "truncated": tr, "exact_len": 0, "frame_type": ft}
@@ -754,7 +1144,8 @@ class C17(Prop):
                  "tfdz": hx(rbytes(rng, rng.choice([0, 1, 2, 5, 30])))}
             raw = enc_tfdf(t)
             yield Case({"op": "uslp_tfdf_unpack", "raw": hx(raw + rbytes(rng, rng.choice([0, 1, 6]))), "truncated": 0,
-                        "exact_len": len(raw), "frame_type": rng.choice([ft, None]) if ft == 0 else ft}, "valid", tag="random+suffix")
+                        "exact_len": len(raw), "frame_type": rng.choice([ft, None]) if ft == 0 else ft, "check": True}, "valid",
+                       tag="random+suffix")
 
     # -----------------------------------------------------------------------------------------
     def frame_cases(self, rng, thorough):
@@ -891,6 +1282,162 @@ class C17(Prop):
                             yield Case({"op": "uslp_props_new", "kind": kind, "len": rng.randint(0, 100), "has_iz": has_iz,
                                         "has_fecf": has_fecf, "iz_len": izl, "fecf_len": fl},
                                        "invalid" if bad else "valid", errclass=bool(bad), tag="props")
+
+    # -----------------------------------------------------------------------------------------
+    def history_cases(self, rng, thorough):
+        """Case key "hist" (see the section "objects that reached the case's values THE LONG WAY"): the op's arguments are the
+        FINAL values; hist = {"from": the values the object is obtained with, "source": "ctor" | "unpack", "path": the order in
+        which the public attributes are assigned, "read": views read before the first assignment (absent = all, [] = none),
+        "after": order of the views read at the end, "mid": views read between two assignments}.
+
+        FINDING on the unchanged tree (not generated; _tfdf_hist_supported leaves these histories out, the statement of the
+        property quantifies over the values of a frame and names `tfdz` / set_frame_len_in_header() as the mutators):
+            t = TransferFrameDataField(TfdzConstructionRules.FpPacketSpanningMultipleFrames, UslpProtocolIdentifier.IDLE_DATA,
+                                       tfdz=bytes(4), fhp_or_lvop=None)
+            t.fhp_or_lvop = 5        # plain public attribute
+            t.len() -> 5, t.header_len() -> 3, len(t.pack()) -> 7
+        len() is a size remembered by the `tfdz` setter; it does not follow a pointer that appears / disappears afterwards
+        (the same the other way round: built with a pointer, `t.fhp_or_lvop = None`, len() stays 2 too large), and so
+        TransferFrame.len() / set_frame_len_in_header() of a frame holding such a data field are off by 2 until `tfdz` is
+        assigned again."""
+        # ---- PrimaryHeader: VCF count <-> VCF count length, every (old length, new length), both orders ----
+        reads = [None, [], ["len"], ["pack"], ["pack", "len"], ["decoded"]]
+        k = rng.randrange(1000)
+
+        def full(n):           # a count that uses every octet of an n octet field
+            return int.from_bytes(bytes(range(0xA1, 0xA1 + n)), "big") if n else rng.choice([None, 0])
+
+        def hcase(old, new, path, tag, op="uslp_hdr_pack", **more):
+            nonlocal k
+            k += 1
+            hist = {"from": {x: v for x, v in old.items() if x != "kind"}, "source": ("ctor", "unpack")[k % 2], "path": path,
+                    "read": reads[k % len(reads)], **more}
+            return Case({"op": op, **new, "check": True, "hist": hist}, "valid", tag=tag)
+
+        for old_n in range(8):
+            for new_n in range(8):
+                for counts in ((full(old_n), full(new_n)), (rng.choice(vcf_pool(old_n, rng)), rng.choice(vcf_pool(new_n, rng)))):
+                    old = rand_phdr(rng, old_n)
+                    old["vcf_count"] = counts[0] if old_n else rng.choice([None, 0])
+                    new = dict(old, vcf_len=new_n, vcf_count=counts[1] if new_n else rng.choice([None, 0]))
+                    for path in (["vcf_count", "vcf_len"], ["vcf_len", "vcf_count"]):
+                        yield hcase(old, new, path, "hist-vcf-count-x-len")
+                # the count stays (it fits both widths), only the length changes; the count is assigned again before / after
+                c = rng.choice(vcf_pool(min(old_n, new_n), rng)) if min(old_n, new_n) else 0
+                old = rand_phdr(rng, old_n)
+                old["vcf_count"] = c
+                new = dict(old, vcf_len=new_n)
+                yield hcase(old, new, rng.choice([["vcf_len"], ["vcf_count", "vcf_len"], ["vcf_len", "vcf_count"]]),
+                            "hist-vcf-len-only", mid=rng.choice([None, ["len"], ["pack"]]))
+
+        def other_phdr(old):
+            """a header that differs from `old` in EVERY field"""
+            while True:
+                new = rand_phdr(rng)
+                new.update(src_dest=1 - old["src_dest"], bypass=1 - old["bypass"], prot=1 - old["prot"], ocf=1 - old["ocf"])
+                if new["vcf_len"] == 0:
+                    new["vcf_count"] = 0 if old["vcf_count"] is None else None
+                if all(new[x] != old[x] for x in PHDR_KEYS):
+                    return new
+
+        # ---- every ordered pair of attributes first, the rest afterwards ----
+        for x in PHDR_KEYS:
+            for y in PHDR_KEYS:
+                if x != y:
+                    old = rand_phdr(rng)
+                    yield hcase(old, other_phdr(old), [x, y], "hist-hdr-ordered-pair")
+        # ---- all attributes in random orders ----
+        for i in range(1500 if thorough else 150):
+            old = rand_phdr(rng)
+            path = rng.sample(PHDR_KEYS, len(PHDR_KEYS))
+            yield hcase(old, other_phdr(old), path, "hist-hdr-permutation",
+                        mid=rng.choice([None, None, ["len"], ["pack", "len"]]), after=rng.choice([None, ["pack", "len", "fields"], ["len", "decoded"]]))
+        # ---- TruncatedPrimaryHeader: every order of its four attributes ----
+        import itertools
+        for path in itertools.permutations(THDR_KEYS):
+            for _ in range(4 if thorough else 2):
+                old = rand_thdr(rng)
+                while True:
+                    new = rand_thdr(rng)
+                    new["src_dest"] = 1 - old["src_dest"]
+                    if all(new[x] != old[x] for x in THDR_KEYS):
+                        break
+                yield hcase(old, new, list(path), "hist-thdr-permutation", op="uslp_thdr_pack")
+        # ---- TransferFrameDataField: every order of its four attributes x (fixed / variable rules before and after) ----
+        def rand_tfdf(fixed: bool, other=None):
+            while True:
+                t = {"rules": rng.choice(FP_RULES if fixed else VP_RULES), "upid": rng.randint(0, 31),
+                     "fhp": rng.choice([0, 1, 0xFFFF, 0xFFFE, 0x100, rng.randint(0, 0xFFFF)]) if fixed else None,
+                     "tfdz": hx(rbytes(rng, rng.choice([0, 1, 2, 3, 9, 40])))}
+                if other is None or all(t[x] != other[x] for x in ("rules", "upid", "tfdz")) and (t["fhp"] is None or t["fhp"] != other["fhp"]):
+                    return t
+
+        for path in itertools.permutations(TFDF_KEYS):
+            for old_fixed in (False, True):
+                for new_fixed in (False, True):
+                    for _ in range(3 if thorough else 1):
+                        old = rand_tfdf(old_fixed)
+                        new = rand_tfdf(new_fixed, old)
+                        if not _tfdf_hist_supported(old, new, list(path)):
+                            continue
+                        k += 1
+                        hist = {"from": old, "source": ("ctor", "unpack")[k % 2], "path": list(path), "read": reads[k % 5],
+                                "mid": rng.choice([None, None, ["len"], ["pack"]])}
+                        yield Case({"op": "uslp_tfdf_new", **new, "hist": hist}, "valid", tag="hist-tfdf-permutation")
+                        k += 1
+                        hist = dict(hist, source=("ctor", "unpack")[k % 2], read=reads[k % 5])
+                        tr = rng.randint(0, 1)
+                        ft = rng.choice([None, 0 if new_fixed else 1])
+                        yield Case({"op": "uslp_tfdf_pack", **new, "truncated": tr, "frame_type": ft,
+                                    "check": should_fhp(new["rules"], bool(tr), ft) == new_fixed, "hist": hist}, "valid",
+                                   tag="hist-tfdf-permutation")
+        # a pointer held together with a variable-length rule (constructor only; len() counts it, see all-rules-x-upid)
+        for _ in range(40 if thorough else 12):
+            old = rand_tfdf(True)
+            new = rand_tfdf(True, old)
+            old["rules"], new["rules"] = rng.choice(range(8)), rng.choice(VP_RULES)
+            path = rng.sample(TFDF_KEYS, 4)
+            yield Case({"op": "uslp_tfdf_new", **new, "hist": {"from": old, "source": "ctor", "path": path, "read": rng.choice(reads[:5])}},
+                       "valid", tag="hist-tfdf-pointer-with-vp-rule")
+        # ---- TransferFrame: decoded / constructed, looked at, then changed part by part with the frame length written in between ----
+        steps_all = FRAME_STEPS + ["tfdf"]
+        for rules in range(8):
+            for truncated in ((False, True) if rules in VP_RULES else (False,)):
+                pool_r = FP_RULES if rules in FP_RULES else VP_RULES
+                for rep in range(12 if thorough else 5):
+                    iz, fecf = rng.choice([None, None, 0, 1, 5]), rng.choice([None, 2, 4])
+                    ocf = (not truncated) and rng.random() < 0.5
+                    n = rng.randint(0, 7)
+                    old, ft = wf_frame(rng, rules, truncated, iz, ocf, fecf, rng.choice([0, 1, 2, 3, 9, 40]), vcf_len=n)
+                    if rep % 5 == 0:
+                        # only the frame around the data field changes: the data field object is the decoded one to the end
+                        new = copy.deepcopy(old)
+                        new["iz"] = rng.choice([None, hx(rbytes(rng, 3))])
+                        new["fecf"] = rng.choice([None, hx(rbytes(rng, 2))])
+                        if not truncated:
+                            new["hdr"].update(vcf_len=(n + 1) % 8, vcf_count=rng.choice(vcf_pool((n + 1) % 8, rng)), ocf=int(not ocf))
+                            new["ocf"] = None if ocf else hx(rbytes(rng, 4))
+                        path = rng.sample(["iz", "fecf", "ocf", "vcf"], rng.randint(0, 4))
+                    elif rep % 5 == 1:
+                        new = copy.deepcopy(old)       # nothing changes but the length field (written by the op / in the path)
+                        path = []
+                    else:
+                        new, _ = wf_frame(rng, rng.choice(pool_r), truncated, rng.choice([None, 0, 2, 5]),
+                                          (not truncated) and rng.random() < 0.5, rng.choice([None, 2, 4]),
+                                          rng.choice([0, 1, 2, 3, 9, 40]), vcf_len=rng.randint(0, 7))
+                        path = rng.sample(steps_all, rng.randint(0, len(steps_all)))
+                    for _ in range(rng.choice([0, 1, 1, 2])):
+                        path.insert(rng.randint(0, len(path)), "set_len")
+                    if rep % 5 == 1:
+                        path = rng.choice([[], ["set_len"]])
+                    set_len = rng.randint(0, 1) if not truncated else 1
+                    if not truncated:
+                        new["hdr"]["frame_len"] = frame_total_len(new) - 1 if set_len else rng.randint(0, 65535)
+                    k += 1
+                    hist = {"from": old, "source": ("unpack", "ctor", "unpack")[k % 3], "path": path, "read": [None, None, [], ["len"], ["pack"]][k % 5],
+                            "sfx": hx(rbytes(rng, rng.choice([0, 0, 3])))}
+                    yield Case({"op": "uslp_frame_pack", **new, "truncated": int(truncated), "frame_type": rng.choice([None, ft]),
+                                "set_len": set_len, "check": True, "check_ft": ft, "hist": hist}, "valid", tag="hist-frame")
 
     def sequence_cases(self, rng, thorough):
         """Frames that share the managed parameters AND the virtual channel but differ in what the primary header
